@@ -81,8 +81,10 @@ def routes(name, r, params):
     guard('potable_form', potable_form)
     def potable_call():
         ps = ['p%d' % i for i in range(len(params))]
+        # the formula language resolves names whatever their case: as.ZBL(...), as.Zbl(...) and as.zbl(...) are the same call
+        nm = [name, name.upper(), name.capitalize()][(len(params) + int(abs(float(r)) * 8)) % 3]
         txt = ('[Tabulation]\ntarget : LAMMPS\nnr : 5\ncutoff : 1.0\n[Potential-Form]\ng(%s) = as.%s(%s)\n[Pair]\nA-B : >=-1000.0 g %s\n'
-               % (', '.join(['r'] + ps), name, ', '.join(['r'] + ps), ' '.join(_fmt(p) for p in params)))
+               % (', '.join(['r'] + ps), nm, ', '.join(['r'] + ps), ' '.join(_fmt(p) for p in params)))
         tab = Configuration().read(io.StringIO(txt))
         return tab.potentials[0].energy(r)
     guard('potable_call', potable_call)
